@@ -265,6 +265,25 @@ OP_INTS = [0, 1, 2, 3, -1, -2, -8, 7, 10, 16, 23, 34, 255, 1000, -99999, 4294967
 OP_FRACS = [0.5, -2.25, 1.5, 1e-3]
 
 
+def cli_family(chk):
+    """the number a script RETURNS to the command-line interface becomes the exit status whichever way it is held: a literal (float) and the
+    same integral value produced as a host int (arrayLength, stringLength, mathFloor, numberParseInt, jsonParse) give the same status"""
+    cases, meta = [], []
+    for n in (0, 2, 3, 7, 255, 256, 1000):
+        spellings = [f'{n}', f'{n}.0', f'arrayLength(arrayNewSize({n}))', f"stringLength(stringRepeat('a', {n}))", f'mathFloor({n}.5)',
+                     f"numberParseInt('{n}')", f"jsonParse('{n}')", f"jsonParse('{n}.0')", f'mathRound({n}.2)', f'{n} * 1', f'arrayLength(arrayNewSize({n})) + 0']
+        for sp in spellings:
+            cases.append({'files': {}, 'argv': ['-c', f'return {sp}']})
+            meta.append((n, sp))
+    out = core.run_impl('cli_multi', cases, shards=2)
+    for (n, sp), res in zip(meta, out):
+        want = n if 0 <= n <= 255 else 1
+        if res.get('status') != want:
+            chk.oracle_fail.append({'class': 'int-float-spelling-changes-result', 'source': f'bare -c "return {sp}"', 'f': 'command-line exit status',
+                                    'expected': {'status': want}, 'got': res})
+    return len(cases)
+
+
 def operator_family(chk):
     """a OP b and unary - ! with every integral operand as host int and as float (4 / 2 spelling combinations): the results must be the
     same number (or the same non-number), the same failure (null)"""
@@ -428,6 +447,14 @@ def run(tier):
                         args.append(typed_arg(r, sq, 3))
                 cases.append({'f': f, 'args': args})
                 n_family += 1
+    # datetimeNew: every component far outside its usual range (the roll-over paths), the others ordinary
+    for pos in range(7):
+        for k in [-5000, -1000, -100, -40, -32, -31, -1, 0, 1, 12, 13, 31, 32, 59, 60, 62, 63, 100, 255, 366, 1000, 5000, 9999]:
+            for base in ([2024, 1, 15, 0, 0, 0, 0], [1999, 12, 31, 23, 59, 59, 999]):
+                args = list(base)
+                args[pos] = k
+                cases.append({'f': 'datetimeNew', 'args': [['n', v] for v in args[:max(3, pos + 1)]]})
+                n_family += 1
     for f in functions:
         if f in EXCLUDED:
             continue
@@ -435,6 +462,7 @@ def run(tier):
             cases.append(gen_case(r, f, table))
     impl = core.run_impl('lib_spell', cases)
     op_stats = operator_family(chk)
+    n_cli = cli_family(chk)
 
     dist = {}
     n_nontrivial = 0
@@ -492,7 +520,7 @@ def run(tier):
             chk.corr_fail.append({'class': 'model-differs', 'more': len(bad) - 10})
 
     chk.coverage = {
-        'evaluations': 2 * len(cases) + op_stats['operator_evaluations'], 'operators': op_stats,
+        'evaluations': 2 * len(cases) + op_stats['operator_evaluations'], 'operators': op_stats, 'cli_exit_status_runs': n_cli,
         'distinct_nontrivial': n_nontrivial,
         'rule': '+ round 7: arrays mixing true / false / 0 / 1 / "1" for the search, order and extreme functions; one evaluation = one call of a library function through a real script (each case is run in both spellings); '
                 'non-trivial = the argument list contains at least one integral number (top level or nested)',
